@@ -201,6 +201,53 @@ impl HnswIndex {
             _ => vec.to_vec(),
         }
     }
+
+    /// Validate a vector against the index configuration and the dimension `dim`
+    /// (0 = not yet determined). Returns the dimension to use from here on.
+    fn validate_vector(&self, vector: &[f32], dim: usize) -> Result<usize, String> {
+        // Reject empty vectors
+        if vector.is_empty() {
+            return Err("Cannot insert empty vector into HNSW index".to_string());
+        }
+
+        // Reject zero-norm vectors for metrics that require normalization
+        if matches!(
+            self.config.metric,
+            DistanceMetric::Cosine | DistanceMetric::DotProduct
+        ) {
+            let norm: f32 = vector.iter().map(|x| x * x).sum::<f32>().sqrt();
+            if norm <= 1e-10 {
+                return Err(
+                    "Cannot insert zero-norm vector for cosine/dot product metric".to_string(),
+                );
+            }
+        }
+
+        if dim != 0 && dim != vector.len() {
+            return Err(format!(
+                "Dimension mismatch: index has dimension {}, got vector of dimension {}",
+                dim,
+                vector.len()
+            ));
+        }
+        Ok(vector.len())
+    }
+
+    /// Store a validated vector (update in place if the ID exists) and revive the ID
+    /// if it was tombstoned.
+    fn store_vector(&self, id: TupleId, vector: &[f32]) {
+        let prepared = self.prepare_vector(vector);
+        let mut vectors = self.vectors.write();
+        if let Some(pos) = vectors
+            .iter()
+            .position(|(existing_id, _)| *existing_id == id)
+        {
+            vectors[pos] = (id, prepared);
+        } else {
+            vectors.push((id, prepared));
+        }
+        self.tombstones.write().remove(&id);
+    }
 }
 
 impl Index for HnswIndex {
@@ -217,9 +264,14 @@ impl Index for HnswIndex {
         // Prepare query vector
         let prepared_query = self.prepare_vector(query);
 
+        // Tombstoned IDs stay in the graph until the next rebuild: never return them,
+        // and widen the search by their number so that k live results remain.
+        let tombstones = self.tombstones.read();
+        let ef_search = ef_search + tombstones.len();
+
         // For Manhattan, request more candidates since L2 ordering != L1 ordering.
         // Reranking from a larger candidate set improves recall.
-        let search_k = if is_manhattan { k * 4 } else { k };
+        let search_k = if is_manhattan { k * 4 } else { k } + tombstones.len();
         let raw_results = inner.hnsw.search(&prepared_query, search_k, ef_search);
         #[cfg(inputlayer_verif)]
         VERIF_LAST_RAW.with(|r| {
@@ -236,6 +288,9 @@ impl Index for HnswIndex {
                     let internal_idx = neighbour.d_id;
                     if internal_idx < inner.index_to_tuple_id.len() {
                         let tuple_id = inner.index_to_tuple_id[internal_idx];
+                        if tombstones.contains(&tuple_id) {
+                            return None;
+                        }
                         // Find the stored vector for this tuple_id
                         if let Some((_, stored_vec)) =
                             vectors.iter().find(|(id, _)| *id == tuple_id)
@@ -257,6 +312,9 @@ impl Index for HnswIndex {
                     let internal_idx = neighbour.d_id;
                     if internal_idx < inner.index_to_tuple_id.len() {
                         let tuple_id = inner.index_to_tuple_id[internal_idx];
+                        if tombstones.contains(&tuple_id) {
+                            return None;
+                        }
                         let dist = self.transform_distance(neighbour.distance);
                         Some((tuple_id, dist))
                     } else {
@@ -274,52 +332,14 @@ impl Index for HnswIndex {
     }
 
     fn insert(&mut self, id: TupleId, vector: &[f32]) -> Result<(), String> {
-        // Reject empty vectors
-        if vector.is_empty() {
-            return Err("Cannot insert empty vector into HNSW index".to_string());
-        }
-
-        // Reject zero-norm vectors for metrics that require normalization
-        if matches!(
-            self.config.metric,
-            DistanceMetric::Cosine | DistanceMetric::DotProduct
-        ) {
-            let norm: f32 = vector.iter().map(|x| x * x).sum::<f32>().sqrt();
-            if norm <= 1e-10 {
-                return Err(
-                    "Cannot insert zero-norm vector for cosine/dot product metric".to_string(),
-                );
-            }
-        }
-
-        // Track dimension
+        // Validate and track dimension
         {
             let mut dim = self.dimension.write();
-            if *dim == 0 {
-                *dim = vector.len();
-            } else if *dim != vector.len() {
-                return Err(format!(
-                    "Dimension mismatch: index has dimension {}, got vector of dimension {}",
-                    *dim,
-                    vector.len()
-                ));
-            }
+            *dim = self.validate_vector(vector, *dim)?;
         }
 
-        // Check for duplicate ID and update in place if found
-        {
-            let mut vectors = self.vectors.write();
-            if let Some(pos) = vectors
-                .iter()
-                .position(|(existing_id, _)| *existing_id == id)
-            {
-                let prepared = self.prepare_vector(vector);
-                vectors[pos] = (id, prepared);
-            } else {
-                let prepared = self.prepare_vector(vector);
-                vectors.push((id, prepared));
-            }
-        }
+        // Update in place if the ID exists, clear its tombstone
+        self.store_vector(id, vector);
 
         // Rebuild HNSW structure
         // Note: For better performance, we could batch inserts and rebuild less frequently
@@ -329,46 +349,15 @@ impl Index for HnswIndex {
     }
 
     fn insert_batch(&mut self, entries: &[(TupleId, Vec<f32>)]) -> Result<(), String> {
+        // Validate every entry before storing any: a rejected batch leaves the index untouched
+        let mut dim = *self.dimension.read();
+        for (_, vector) in entries {
+            dim = self.validate_vector(vector, dim)?;
+        }
+        *self.dimension.write() = dim;
+
         for (id, vector) in entries {
-            if vector.is_empty() {
-                return Err("Cannot insert empty vector into HNSW index".to_string());
-            }
-            if matches!(
-                self.config.metric,
-                DistanceMetric::Cosine | DistanceMetric::DotProduct
-            ) {
-                let norm: f32 = vector.iter().map(|x| x * x).sum::<f32>().sqrt();
-                if norm <= 1e-10 {
-                    return Err(
-                        "Cannot insert zero-norm vector for cosine/dot product metric".to_string(),
-                    );
-                }
-            }
-            {
-                let mut dim = self.dimension.write();
-                if *dim == 0 {
-                    *dim = vector.len();
-                } else if *dim != vector.len() {
-                    return Err(format!(
-                        "Dimension mismatch: index has dimension {}, got vector of dimension {}",
-                        *dim,
-                        vector.len()
-                    ));
-                }
-            }
-            {
-                let mut vectors = self.vectors.write();
-                if let Some(pos) = vectors
-                    .iter()
-                    .position(|(existing_id, _)| *existing_id == *id)
-                {
-                    let prepared = self.prepare_vector(vector);
-                    vectors[pos] = (*id, prepared);
-                } else {
-                    let prepared = self.prepare_vector(vector);
-                    vectors.push((*id, prepared));
-                }
-            }
+            self.store_vector(*id, vector);
         }
         // Single rebuild after all inserts (key optimization)
         self.rebuild_hnsw()
@@ -404,6 +393,12 @@ impl Index for HnswIndex {
     }
 
     fn rebuild(&mut self, vectors: &[(TupleId, Vec<f32>)]) -> Result<(), String> {
+        // Same validation as insert, before anything is replaced
+        let mut dim = 0;
+        for (_, vec) in vectors {
+            dim = self.validate_vector(vec, dim)?;
+        }
+
         // Clear state
         self.tombstones.write().clear();
         *self.inner.write() = None;
